@@ -2,7 +2,12 @@
 from ..runner import Result
 from . import common
 
-PROFILE = {'name': 'c10', 'max_clients': 6, 'hostile_masks': False, 'weights': {'connect': 6, 'end': 2, 'quit': 1, 'join': 12, 'part': 3, 'kick': 3, 'topic': 2, 'invite': 2, 'cmode': 22, 'umode': 2, 'nick': 3, 'privmsg': 26, 'notice': 20, 'away': 6, 'oper': 1, 'kill': 0.5, 'wallops': 0.5, 'stats': 0.3, 'die': 0.1, 'squit': 0.1, 'names': 1, 'who': 1, 'whois': 1, 'list': 0.5, 'lusers': 0.5, 'ison': 0.3, 'userhost': 0.3, 'whowas': 0.3, 'chanlist': 0.5, 'cquery': 0.5}, 'mode_weights': {'n': 8, 's': 5, 'm': 8, 'b': 9, 'e': 7, 'v': 7, 'h': 2, 'o': 3, 'k': 0.5, 'l': 0.5, 'i': 0.5, 't': 0.5, 'I': 0.5, 'q': 0.5, 'a': 0.5}}
+CFG_BANS = [{"name": "#p1", "topic": "configured lists",
+             "modes": {"ban": ["al!*@*", "*!~bob@*", "Al!*@*"], "exception": ["*!*@10.*", "cy!*@*"], "voices": ["ed"]}}]
+PROFILE = {'name': 'c10', 'cfg_variants': [{}, {}, {'extra_channels': CFG_BANS},
+                                           {'extra_channels': [{"name": "#p1", "modes": {"ban": ["*!*@127.0.0.1"],
+                                                                                        "exception": ["bo!*@*", "root!*@*"]}}]}],
+           'max_clients': 6, 'hostile_masks': False, 'weights': {'connect': 6, 'end': 2, 'quit': 1, 'join': 12, 'part': 3, 'kick': 3, 'topic': 2, 'invite': 2, 'cmode': 22, 'umode': 2, 'nick': 3, 'privmsg': 26, 'notice': 20, 'away': 6, 'oper': 1, 'kill': 0.5, 'wallops': 0.5, 'stats': 0.3, 'die': 0.1, 'squit': 0.1, 'names': 1, 'who': 1, 'whois': 1, 'list': 0.5, 'lusers': 0.5, 'ison': 0.3, 'userhost': 0.3, 'whowas': 0.3, 'chanlist': 0.5, 'cquery': 0.5}, 'mode_weights': {'n': 8, 's': 5, 'm': 8, 'b': 9, 'e': 7, 'v': 7, 'h': 2, 'o': 3, 'k': 0.5, 'l': 0.5, 'i': 0.5, 't': 0.5, 'I': 0.5, 'q': 0.5, 'a': 0.5}}
 
 
 def run(ctx):
